@@ -177,7 +177,7 @@ Definition hole_null (sh : bool) (w : world) (a : nat) : world * iloc :=
   if sh then (w, null_oh_loc) else halloc w a null_cell.
 
 (* ---------------------------------------------------------------- the parser (a stack machine over tokens) *)
-Inductive itok := TNull | TBool (b : bool) | TInt (z : Z) | TName (k : N) | TRef (id : N) | TAO | TAC | TDO | TDC.
+Inductive itok := ItNull | ItBool (b : bool) | ItInt (z : Z) | ItName (k : N) | ItRef (id : N) | ItAO | ItAC | ItDO | ItDC.
 Inductive fkind := FArr | FDictKey | FDictVal (k : N).
 Record pframe := mkFrame { f_kind : fkind; f_olist : list iloc (* reversed *); f_dict : list (N * iloc); f_nulls : nat }.
 
@@ -221,15 +221,15 @@ Fixpoint parse_toks (sh : bool) (ctx : option nat) (a : nat) (w : world) (stack 
                    match frame_add f l with Some f' => parse_toks sh ctx a w1 (f' :: st) rest | None => None end
       end in
     match t with
-    | TNull =>
+    | ItNull =>
       match stack with
       | [] => None
       | f :: st => let (w1, l) := parsed_null sh w a in
                    match frame_add f l with Some f' => parse_toks sh ctx a w1 (frame_null f' :: st) rest | None => None end
       end
-    | TBool b => scalar (HBool b)
-    | TInt z => scalar (HInt z)
-    | TName k =>
+    | ItBool b => scalar (HBool b)
+    | ItInt z => scalar (HInt z)
+    | ItName k =>
       match stack with
       | f :: st => match f_kind f with
                    | FDictKey => parse_toks sh ctx a w (mkFrame (FDictVal k) (f_olist f) (f_dict f) (f_nulls f) :: st) rest
@@ -237,15 +237,15 @@ Fixpoint parse_toks (sh : bool) (ctx : option nat) (a : nat) (w : world) (stack 
                    end
       | [] => None
       end
-    | TRef id =>
+    | ItRef id =>
       match ctx, stack with
       | Some _, f :: st => let (w1, l) := obj_for_parser w a id in
                            match frame_add f l with Some f' => parse_toks sh ctx a w1 (f' :: st) rest | None => None end
       | _, _ => None
       end
-    | TAO => parse_toks sh ctx a w (mkFrame FArr [] [] O :: stack) rest
-    | TDO => parse_toks sh ctx a w (mkFrame FDictKey [] [] O :: stack) rest
-    | TAC =>
+    | ItAO => parse_toks sh ctx a w (mkFrame FArr [] [] O :: stack) rest
+    | ItDO => parse_toks sh ctx a w (mkFrame FDictKey [] [] O :: stack) rest
+    | ItAC =>
       match stack with
       | f :: st =>
         match f_kind f with
@@ -261,7 +261,7 @@ Fixpoint parse_toks (sh : bool) (ctx : option nat) (a : nat) (w : world) (stack 
         end
       | [] => None
       end
-    | TDC =>
+    | ItDC =>
       match stack with
       | f :: st =>
         match f_kind f with
@@ -280,7 +280,7 @@ Fixpoint parse_toks (sh : bool) (ctx : option nat) (a : nat) (w : world) (stack 
 
 Definition parse_obj (sh : bool) (ctx : option nat) (a : nat) (w : world) (toks : list itok) : option (world * iloc) :=
   match toks with
-  | TAO :: _ | TDO :: _ => parse_toks sh ctx a w [] toks
+  | ItAO :: _ | ItDO :: _ => parse_toks sh ctx a w [] toks
   | _ => None
   end.
 
@@ -668,8 +668,8 @@ Definition obs_roots (w : world) (d : nat) : list (nat * (list N * list N)) :=
 Definition obs_doc (w : world) (d : nat) : list (N * list N) * list (nat * (list N * list N)) := (obs_objects w d, obs_roots w d).
 
 (* fresh-parse probes (no context): "[ null 1 << /K null /L [ null ] >> ]" and a 102-element array with 101 nulls *)
-Definition probe1_toks : list itok := [TAO; TNull; TInt 1; TDO; TName 75; TNull; TName 76; TAO; TNull; TAC; TDC; TAC].
-Definition probe2_toks : list itok := TAO :: TInt 5 :: repeat TNull 101 ++ [TAC].
+Definition probe1_toks : list itok := [ItAO; ItNull; ItInt 1; ItDO; ItName 75; ItNull; ItName 76; ItAO; ItNull; ItAC; ItDC; ItAC].
+Definition probe2_toks : list itok := ItAO :: ItInt 5 :: repeat ItNull 101 ++ [ItAC].
 Definition probe_world (w : world) : world := w.
 
 Definition parse_fresh (sh : bool) (w : world) (toks : list itok) : option (list N) :=
